@@ -464,6 +464,9 @@ pub trait PeerAware {
 
     fn num_pending_eors(&self) -> usize;
 
+    /// The number of peers that still have at least one pending End-of-RIB.
+    fn num_peers_with_pending_eors(&self) -> usize;
+
     fn add_announced_prefix(
         &mut self,
         pph: &PerPeerHeader<Bytes>,
@@ -561,13 +564,19 @@ where
                 last_invalid_withdrawal: None,
             });
 
-            let eor_capable = self.details.is_peer_eor_capable(&pph);
+            // The peer has been removed from the table by now, so take its
+            // capability from the removed entry.
+            let eor_capable = Some(removed_peer.eor_capable);
 
             // Don't announce this above as it will cause metric
             // underflow from 0 to MAX if there were no peers
             // currently up.
             self.status_reporter
                 .peer_down(self.router_id.clone(), eor_capable);
+            self.status_reporter.pending_eors_update(
+                self.router_id.clone(),
+                self.details.num_peers_with_pending_eors(),
+            );
 
             //if withdrawals.is_empty() {
             //    self.mk_other_result()
@@ -768,7 +777,7 @@ where
                                         .unwrap()
                                         .afi_safi();
 
-                                    let num_pending_eors = saved_self
+                                    saved_self
                                         .details
                                         .add_pending_eor(&pph, afi_safi);
 
@@ -776,7 +785,9 @@ where
                                         .status_reporter
                                         .pending_eors_update(
                                             saved_self.router_id.clone(),
-                                            num_pending_eors,
+                                            saved_self
+                                                .details
+                                                .num_peers_with_pending_eors(),
                                         );
                                 }
                             }
@@ -1347,6 +1358,13 @@ impl PeerAware for PeerStates {
         self.0
             .values()
             .fold(0, |acc, peer_state| acc + peer_state.pending_eors.len())
+    }
+
+    fn num_peers_with_pending_eors(&self) -> usize {
+        self.0
+            .values()
+            .filter(|peer_state| !peer_state.pending_eors.is_empty())
+            .count()
     }
 
     fn add_announced_prefix(
